@@ -32,6 +32,7 @@ import (
 
 	"github.com/go-shiori/dom"
 	"github.com/markusmobius/go-domdistiller/data"
+	"github.com/markusmobius/go-domdistiller/internal/domutil"
 	"github.com/markusmobius/go-domdistiller/internal/extractor"
 	"github.com/markusmobius/go-domdistiller/internal/pagination"
 	"golang.org/x/net/html"
@@ -197,6 +198,7 @@ func Apply(doc *html.Node, opts *Options) (*Result, error) {
 	// Convert generated html string into node
 	container := dom.CreateElement("div")
 	dom.SetInnerHTML(container, extractedHTML)
+	sanitizeOutput(container)
 
 	// Prepare result
 	result := Result{}
@@ -247,4 +249,30 @@ func Apply(doc *html.Node, opts *Options) (*Result, error) {
 	}
 
 	return &result, nil
+}
+
+// sanitizeOutput cleans the tree that was parsed from the generated HTML. Every piece of that
+// HTML had its attributes stripped before it was serialised, but serialising and parsing again
+// is not an identity: text that was inert inside foreign content (for example inside an <xmp>
+// or <style> element of an <svg> or <math> subtree) is written unescaped and comes back as real
+// elements with their own attributes. So the final tree is stripped once more.
+func sanitizeOutput(container *html.Node) {
+	// The markers on the wrappers of embedded elements are ours and have to stay.
+	placeholders := dom.QuerySelectorAll(container, "div.embed-placeholder")
+	markers := make([][]html.Attribute, len(placeholders))
+	for i, placeholder := range placeholders {
+		for _, attr := range placeholder.Attr {
+			switch attr.Key {
+			case "class", "data-type", "data-id":
+				markers[i] = append(markers[i], attr)
+			}
+		}
+	}
+
+	dom.RemoveNodes(dom.GetAllNodesWithTag(container, "script", "style"), nil)
+	domutil.StripAttributes(container)
+
+	for i, placeholder := range placeholders {
+		placeholder.Attr = markers[i]
+	}
 }
